@@ -43,3 +43,4 @@ MANIFEST = {
             "several brokers / leader moves, segment rolls, compaction and retention, waiting fetches (MinBytes), producer-epoch exhaustion, persistence.",
     "technique": "Lean 4 proof (invariants by induction over all histories, refinement reuse from C29) with differential correspondence against kfake over raw protocol histories in synctest bubbles",
 }
+PENDING = True  # model being updated to the fixed kfake (c5c680e)
